@@ -9,7 +9,6 @@ use crate::mqtt::{self, Pk, Prop, PV};
 use crate::opts;
 use crate::sim::{Cmd, Sim, Task};
 use rand::rngs::StdRng;
-use rand::seq::SliceRandom;
 use rand::{Rng, SeedableRng};
 use serde_json::{json, Value};
 
@@ -120,8 +119,8 @@ pub fn start(p: &Params) -> Sim {
     let ok = handshake(&mut s, p);
     let sei = effective_sei(p);
     s.emit(json!({
-        "e": "reset", "run": p.run, "fam": p.fam, "R": p.r.unwrap_or(65535), "M": p.m.unwrap_or(0),
-        "sei": if sei == u32::MAX { 0 } else { sei }, "seik": sei_kind(sei), "disc": p.disc, "mode": p.mode, "ok": ok as u8,
+        "e": "reset", "run": p.run, "fam": p.fam, "R": p.r.unwrap_or(65535), "M": p.m.unwrap_or(0).min(i32::MAX as u32),
+        "sei": if sei == u32::MAX { 0 } else { sei }, "seik": sei_kind(sei), "disc": p.disc, "mode": p.mode, "ok": ok as u8, "recon": 0,
     }));
     s
 }
@@ -220,7 +219,22 @@ pub fn settle(s: &mut Sim, rng: &mut StdRng, sweep: bool) {
             if w.is_empty() {
                 break;
             }
-            w.shuffle(rng);
+            // order among the woken tasks: a pseudo-random permutation that depends only on the position in
+            // the script (not on how many polls happened before), so that a script replayed with extra
+            // spurious polls schedules the woken tasks identically
+            let salt = s.step_no.wrapping_mul(0x9e37_79b9_7f4a_7c15).wrapping_add(polls as u64).wrapping_add(s.sched_seed);
+            w.sort_by_key(|t| {
+                let id = match t {
+                    Task::Ctx => 0u64,
+                    Task::Op(k) => 2 * (*k as u64) + 1,
+                    Task::St(k) => 2 * (*k as u64) + 2,
+                };
+                let mut x = id.wrapping_add(salt).wrapping_mul(0xbf58_476d_1ce4_e5b9);
+                x ^= x >> 29;
+                x = x.wrapping_mul(0x94d0_49bb_1331_11eb);
+                x ^ (x >> 32)
+            });
+            let _ = &rng;
             for t in w {
                 if s.is_woken(&t) {
                     s.poll_task(&t);
@@ -254,6 +268,7 @@ pub fn settle(s: &mut Sim, rng: &mut StdRng, sweep: bool) {
 /// recorded as a `note` line and has no effect).
 pub fn exec_step(s: &mut Sim, rng: &mut StdRng, st: &Value) -> bool {
     let a = st["a"].as_str().unwrap_or("");
+    s.step_no += 1;
     let ok = match a {
         "call" => s.call(st["op"].as_u64().unwrap_or(0) as usize, st["h"].as_u64().unwrap_or(0) as usize, &st["spec"]),
         "poll" => match task_of(st) {
@@ -315,6 +330,14 @@ pub fn exec_step(s: &mut Sim, rng: &mut StdRng, st: &Value) -> bool {
             }
             None => false,
         },
+        "raw" => {
+            // bytes given literally; `pks` (optional) = abstract records of the packets they complete
+            let h = st["hex"].as_str().unwrap_or("");
+            let b: Vec<u8> = (0..h.len() / 2).filter_map(|i| u8::from_str_radix(&h[2 * i..2 * i + 2], 16).ok()).collect();
+            let pks = st["pks"].as_array().cloned().unwrap_or_default();
+            s.inject_bytes(&b, &[], pks);
+            true
+        }
         "eof" => {
             s.eof();
             true
@@ -338,6 +361,24 @@ pub fn exec_step(s: &mut Sim, rng: &mut StdRng, st: &Value) -> bool {
             settle(s, rng, st["sweep"].as_bool().unwrap_or(true));
             true
         }
+        "autoack" => {
+            // the broker acknowledges (successfully) everything it has received on this connection so far
+            let todo: Vec<Pk> = s.wire.packets[s.wire.acked..].to_vec();
+            s.wire.acked = s.wire.packets.len();
+            for pk in todo {
+                let a = match pk.t {
+                    mqtt::PUBLISH if pk.qos() == 1 => Some(ack(mqtt::PUBACK, pk.id.unwrap_or(0), 0)),
+                    mqtt::PUBLISH if pk.qos() == 2 => Some(ack(mqtt::PUBREC, pk.id.unwrap_or(0), 0)),
+                    mqtt::PUBREL => Some(ack(mqtt::PUBCOMP, pk.id.unwrap_or(0), 0)),
+                    mqtt::PINGREQ => Some(Pk::new(mqtt::PINGRESP)),
+                    _ => None,
+                };
+                if let Some(a) = a {
+                    s.inject_packet(&a, 9);
+                }
+            }
+            true
+        }
         "markdisc" => {
             let secs = st["secs"].as_u64().unwrap_or(0);
             s.command(Cmd::MarkDisc(secs));
@@ -352,7 +393,8 @@ pub fn exec_step(s: &mut Sim, rng: &mut StdRng, st: &Value) -> bool {
             s.new_pipe();
             let ok = handshake(s, &p);
             let sei = effective_sei(&p);
-            s.emit(json!({"e": "reconnect", "R": p.r.unwrap_or(65535), "M": p.m.unwrap_or(0),
+            s.wire.acked = 0;
+            s.emit(json!({"e": "reconnect", "R": p.r.unwrap_or(65535), "M": p.m.unwrap_or(0).min(i32::MAX as u32),
                 "sei": if sei == u32::MAX { 0 } else { sei }, "seik": sei_kind(sei), "ok": ok as u8}));
             true
         }
@@ -369,6 +411,7 @@ pub fn run_script(steps: &[Value], seed: u64) -> Vec<String> {
     let mut rng = StdRng::seed_from_u64(seed);
     let p = Params::from_json(&steps[0]);
     let mut s = start(&p);
+    s.sched_seed = seed;
     for st in &steps[1..] {
         exec_step(&mut s, &mut rng, st);
     }
@@ -502,6 +545,7 @@ pub fn walk(p: &Params, cfg: &WalkCfg, seed: u64) -> (Vec<Value>, Vec<String>) {
     let mut rng = StdRng::seed_from_u64(seed);
     let mut script = vec![p.to_json()];
     let mut s = start(p);
+    s.sched_seed = seed;
     let mut b = Broker { seen: 0, pending: vec![], pings: 0, q2_open: vec![], next_in: 0 };
     let mut next_op = 1usize;
     let sweep_every = p.disc == "sweep";
